@@ -24,6 +24,19 @@ func (C02) OnCall(e *sim.Env, c *sim.Call) {
 	if s := sumAccounts(post); s.Cmp(post.Supply) != 0 {
 		e.Violate("C02", "supply-ne-sum/"+c.Kind, fmt.Sprintf("after %s@%d: recorded supply %v != sum of balances %v (diff %v)", c.Kind, c.H, post.Supply, s, sub(post.Supply, s)), c)
 	}
+	// the same for the second denomination (nothing mints or burns it: its supply is what genesis stated)
+	s2 := new(big.Int)
+	for _, a := range post.Accounts {
+		if a.Bal2 != nil {
+			s2.Add(s2, a.Bal2)
+		}
+	}
+	if post.Supply2 != nil && s2.Cmp(post.Supply2) != 0 {
+		e.Violate("C02", "supply-ne-sum/second-denomination/"+c.Kind, fmt.Sprintf("after %s@%d: recorded supply of %s %v != sum of balances %v", c.Kind, c.H, sim.SecondDenom, post.Supply2, s2), c)
+	}
+	if c.Pre.View != nil && c.Pre.View.Supply2 != nil && post.Supply2 != nil && c.Kind != "init" && !c.Reopened && c.Pre.View.Supply2.Cmp(post.Supply2) != 0 {
+		e.Violate("C02", "second-denomination-supply-changed/"+c.Kind, fmt.Sprintf("%s@%d: supply of %s moved from %v to %v", c.Kind, c.H, sim.SecondDenom, c.Pre.View.Supply2, post.Supply2), c)
+	}
 	for _, a := range post.Accounts {
 		if a.Negative || a.Bal.Sign() < 0 {
 			e.Violate("C02", "negative-balance", fmt.Sprintf("account %s has a negative balance %v after %s@%d", a.Addr, a.Bal, c.Kind, c.H), c)
